@@ -371,7 +371,8 @@ async fn judge(
         if info.index >= 0 && dropped_meanwhile.is_none() {
             let steady: Vec<String> = reference.offered_names().into_iter().filter(|n| !info.changed.contains(n) && !info.causes.contains_key(n) && !skip.contains(n)).collect();
             if !steady.is_empty() {
-                for _ in 0..800 {
+                // (fewer for a big fleet: every read copies the whole offer)
+                for _ in 0..(40_000 / snapshot.len().max(1)).clamp(20, 800) {
                     let quick = match adapter.discover().await {
                         Ok(t) => t,
                         Err(e) => return Err(format!("discover() returned an error: {e}")),
@@ -487,7 +488,19 @@ async fn judge(
 
     // was the harness itself late? then the bound says nothing
     let late = cfg.lateness.max_since(t_step);
+    // ... about an offer that was late. A wrong offer that is still the same wrong offer after another
+    // full bound of quiet waiting is not a matter of lateness (a big fleet keeps the harness busy too)
+    let mut still_wrong = false;
     if late >= bound / 4 {
+        tokio::time::sleep(bound).await;
+        if let Ok(t) = adapter.discover().await {
+            let again = reference.compare(&to_seen(t), skip);
+            let status = universe.status(mark);
+            let same = again.len() == final_mismatches.len() && again.iter().zip(final_mismatches.iter()).all(|(a, b)| a.kind == b.kind && a.name == b.name);
+            still_wrong = same && status.all_flushed && status.live_ready && !status.list_fail_pending;
+        }
+    }
+    if late >= bound / 4 && !still_wrong {
         out.voided = true;
         out.trace.push(step_trace);
         out.count("verdicts withheld because the harness was late", 1);
